@@ -214,7 +214,25 @@ impl<'a, P: ?Sized + PathImpl> PathMutImpl<'a, P> {
 	pub fn normalize(&mut self) {
 		let mut buffer: SmallVec<[u8; NORMALIZE_IN_PLACE_BUFFER_LEN]> = SmallVec::new();
 		for (i, segment) in self.normalized_segments().enumerate() {
-			if i > 0 {
+			if i == 0 {
+				// Disambiguate if the first normalized segment:
+				// - is empty: writing it as is would either make a relative
+				//   path absolute, drop the segment, or be confused with an
+				//   authority part.
+				// - contains a `:`, the path is relative and at the start
+				//   (it would be confused with a scheme).
+				let disambiguate = if segment.is_empty() {
+					self.is_relative()
+						|| !self.follows_authority
+						|| self.normalized_segments().len() == 1
+				} else {
+					self.start == 0 && self.is_relative() && segment.as_bytes().contains(&b':')
+				};
+
+				if disambiguate {
+					buffer.extend_from_slice(b"./")
+				}
+			} else {
 				buffer.push(b'/')
 			}
 
